@@ -263,6 +263,13 @@ def c04(tier):
             st.append({"cfg": cfg, "unit": 10, "mode": "window" if cfg["k"] != "Ema" else "machine", "eps": [1, 100000000], "float": "f64",
                        "xs": shapes(rnd, n, -500, 500, 400 if tier == "quick" else 1500), "k": 1})
     run.submit(p3_stream_job, "avg-big", "C04", st)
+    # interval clause on streams of wide dynamic range (large values, then more than a window nine decades smaller)
+    iv = []
+    for n in ((1, 2, 3, 5, 21) if tier == "quick" else (1, 2, 3, 4, 5, 8, 13, 21, 50)):
+        for cfg in (sma(n), ema(n), {"k": "Alma", "n": n}, {"k": "Alma", "n": n, "sigma": [3, 1], "offset": [1, 2]}):
+            iv.append({"cfg": cfg, "unit": 1000, "mode": "interval", "eps": [1, 1], "float": "f64",
+                       "xs": residue_runs(rnd, n, 300 if tier == "quick" else 3000), "k": 1})
+    run.submit(p3_stream_job, "avg-interval", "C04", iv)
     return run.finish(RULE_DEF + "; for the interval/constant/monotone clauses: states in which the average reports a value")
 
 def rel_job(run, name, prop, cf, alphabet, unit, L, a, b, mode, bitexact=False, cfgs2=None, invonly=False, pow2=0, rescaled=False):
@@ -440,6 +447,15 @@ def c07(tier):
             for unit, lo, hi in ((10, 1 if posonly else -999, 999), (1000, 10 if posonly else -9999, 9999)):
                 adv.append({"cfg": cfg, "unit": unit, "mode": "range", "eps": [1, 1], "float": "f64",
                             "xs": shapes(rnd, cfg.get("n", n), lo, hi, 400 if tier == "quick" else 4000), "k": 1})
+    # "any dynamic range, constant stretches following volatile ones, monotone runs": values up to 1e6 with three decimals, then
+    # more than a window of something nine decades smaller
+    for n in ((2, 3, 5, 16) if tier == "quick" else (2, 3, 4, 5, 8, 16, 33)):
+        for cfg in bounded(max(n, 3) if n > 2 else 2) + [{"k": "CenterOfGravity", "n": n}, {"k": "Drawdown"}]:
+            if cfg["k"] == "PolarizedFractalEfficiency":
+                continue
+            posonly = cfg["k"] in ("CenterOfGravity", "Drawdown")
+            adv.append({"cfg": cfg, "unit": 1000, "mode": "range", "eps": [1, 1], "float": "f64",
+                        "xs": residue_runs(rnd, cfg.get("n", n), 300 if tier == "quick" else 3000, signed=not posonly), "k": 1})
     third = len(adv) // 3 + 1
     for i in range(3):
         run.submit(p3_stream_job, "rng-adv-%d" % i, "C07", adv[i * third:(i + 1) * third])
@@ -692,6 +708,27 @@ def shapes(rnd, n, lo, hi, length):
             v = rv(); out += [v, v, rv(), v, v]
         else:
             out += [rv() for _ in range(rnd.randint(1, 2 * n))]
+    return out[:length]
+
+def residue_runs(rnd, n, length, big=(10**8, 10**9), signed=True):
+    """wide dynamic range: volatile stretches of large values (big, in units), each followed by more than a window of a small constant
+    or by a monotone run of tiny steps - what a running aggregate's rounding residue needs to surface"""
+    out = []
+    while len(out) < length:
+        sg = rnd.choice([-1, 1]) if signed else 1
+        out += [sg * rnd.randint(*big) * (rnd.choice([-1, 1]) if signed and rnd.random() < 0.3 else 1) for _ in range(rnd.randint(n + 1, 2 * n + 3))]
+        c = rnd.randint(0, 3)
+        if c == 0:
+            out += [rnd.choice([0, 1, 100, 1100, 123456]) * (rnd.choice([-1, 1]) if signed else 1)] * rnd.randint(n + 1, 2 * n + 2)
+        elif c == 1:
+            d = rnd.choice([-1, 1]) * rnd.choice([1, 2, 3, 1000])
+            out += [out[-1] + d * (i + 1) for i in range(rnd.randint(n + 2, 3 * n + 2))]
+        elif c == 2:
+            base = rnd.choice([1, 7, 1100]); d = rnd.choice([1, 2, 3])
+            run_ = [base + d * i for i in range(rnd.randint(n + 2, 3 * n + 2))]
+            out += run_ if rnd.random() < 0.5 else run_[::-1]
+        else:
+            out += [rnd.randint(1, 2000) for _ in range(rnd.randint(n + 1, 2 * n + 2))]
     return out[:length]
 
 def flat_after_volatile(rnd, n, lo, hi):
